@@ -154,9 +154,14 @@ pub fn gen_slot(r: &mut Rng, mode: Mode) -> SlotCfg {
             Mode::C17Miri => *r.pick(&[Kind::Linear, Kind::Spline, Kind::Spline, Kind::Bilinear]),
             Mode::C17 => [Kind::Linear, Kind::Spline, Kind::Bilinear, Kind::Probe1, Kind::Probe2][r.weighted(&[4, 5, 3, 2, 1])],
         };
-        let elem = if !kind.is_probe() && kind != Kind::Spline && r.chance(1, 8) { Elem::F32 } else { Elem::F64 };
+        let elem = if kind.is_probe() {
+            Elem::F64
+        } else {
+            // Yf (yielding element type) only makes sense under the baton
+            [Elem::F64, Elem::F32, Elem::Yf][r.weighted(&[6, 1, if mode == Mode::C17 { 3 } else { 0 }])]
+        };
         let storage = [Storage::Owned, Storage::View, Storage::Shared, Storage::DataView][r.weighted(&[4, 2, 3, 1])];
-        let dimty = *r.pick(&[DimTy::Ix1, DimTy::Ix2, DimTy::Ix3, DimTy::IxDyn]);
+        let dimty = [DimTy::Ix1, DimTy::Ix2, DimTy::Ix3, DimTy::Ix4, DimTy::Ix5, DimTy::IxDyn][r.weighted(&[4, 4, 4, if mode == Mode::C17Miri { 0 } else { 2 }, if mode == Mode::C17Miri { 0 } else { 1 }, 4])];
         let probe_min = r.below(5);
         if !supported(kind, elem, storage, dimty, probe_min) {
             continue;
@@ -180,6 +185,10 @@ pub fn gen_slot(r: &mut Rng, mode: Mode) -> SlotCfg {
             (DimTy::Ix2, true) => 0,
             (DimTy::Ix3, false) => 2,
             (DimTy::Ix3, true) => 1,
+            (DimTy::Ix4, false) => 3,
+            (DimTy::Ix4, true) => 2,
+            (DimTy::Ix5, false) => 4,
+            (DimTy::Ix5, true) => 3,
             (DimTy::IxDyn, false) => r.below(if small { 2 } else { 4 }),
             (DimTy::IxDyn, true) => r.below(if small { 2 } else { 3 }),
         };
@@ -189,7 +198,7 @@ pub fn gen_slot(r: &mut Rng, mode: Mode) -> SlotCfg {
         }
         for _ in 0..n_trailing {
             // length 0 is legal and rare; 1..3 common
-            let l = if r.chance(1, 12) { 0 } else { r.range(1, if small { 2 } else { 3 }) };
+            let l = if r.chance(1, 12) { 0 } else { r.range(1, if small || n_trailing >= 3 { 2 } else { 3 }) };
             shape.push(l);
         }
         let lanes: usize = shape[if two { 2 } else { 1 }..].iter().product();
@@ -661,7 +670,10 @@ fn gen_run_inner(seed: u64, mode: Mode) -> Generated {
                 }
             }
             // buggify: a random subset of callback sites yields, only in some runs
-            let yield_mask = if sc.probe && yields_on { r.next_u64() & r.next_u64() | if r.chance(1, 2) { r.next_u64() } else { 0 } } else { 0 };
+            let yield_mask = if slots[slot].elem == Elem::Yf {
+                // seed of the element-operation yield points of this call (0 = none)
+                if r.chance(7, 8) { r.next_u64() | 1 } else { 0 }
+            } else if sc.probe && yields_on { r.next_u64() & r.next_u64() | if r.chance(1, 2) { r.next_u64() } else { 0 } } else { 0 };
             let check_acc = sc.probe && r.chance(1, 2);
             Op { slot, call, plan, yield_mask, check_acc }
         })
